@@ -53,13 +53,14 @@ RULES = [
 
 
 # Function slices: files the front end cannot take whole (variadic printf family, POSIX headers).
-# (source file, output file, [exact first lines of the function definitions to extract], prelude)
+# (source file, output file, [exact first lines of the function definitions to extract], prelude,
+#  [single definition lines copied verbatim, each must occur exactly once])
 # The text between the signature line and the matching closing brace is copied VERBATIM (after the
 # rules above); everything else of the file is dropped and so not verified.
 SLICES = [
     ("src/String.cpp", "src/String.codecs.slice.cpp",
      ["String String::fromHex(const byte* data, usize size)", "String String::fromBase64(const String& data)"],
-     "#include <nstd/String.hpp>\n"),
+     "#include <nstd/String.hpp>\n", ["String::EmptyData String::emptyData;"]),
 ]
 
 
@@ -111,9 +112,12 @@ def _extract_function(text, first_line, fname):
 
 def apply(tree):
     fired = _apply_rules(tree)
-    for (src, out, firsts, prelude) in SLICES:
+    for (src, out, firsts, prelude, lines) in SLICES:
         text = open(os.path.join(tree, src)).read()
-        parts = [prelude] + [_extract_function(text, f, src) for f in firsts]
+        for l in lines:
+            if text.count("\n" + l + "\n") != 1:
+                raise RuntimeError("slice anchor lost in %s: %r" % (src, l))
+        parts = [prelude] + [l + "\n" for l in lines] + [_extract_function(text, f, src) for f in firsts]
         open(os.path.join(tree, out), "w").write("\n".join(parts))
         fired.append({"file": src, "kind": "slice", "pattern": "; ".join(firsts), "count": len(firsts),
                       "why": "function slice -> %s (verbatim function texts; the rest of the file is dropped)" % out})
